@@ -71,11 +71,13 @@ pub proof fn lemma_planned_blob_lies_inside_its_file(c: Seq<DataId>, k: int)
 }
 
 // ---- collect_and_prepare: what happens to entries that exist in the destination but not in the snapshot ----
-pub struct DirEntry { pub _opaque: u64 }
-pub struct FileTypeR { pub _opaque: u64 }
+// `walk_is_dir`: the entry is a directory as the walk sees it (follow_links(false): a symlink to a directory is NOT one) --
+// exactly the entries walkdir descends into
+pub struct DirEntry { pub walk_is_dir: Ghost<bool> }
+pub struct FileTypeR { pub dir: Ghost<bool> }
 impl FileTypeR {
     #[verifier::external_body]
-    pub fn is_dir(&self) -> bool { unimplemented!() }
+    pub fn is_dir(&self) -> (r: bool) ensures r == self.dir@, { unimplemented!() }
     #[verifier::external_body]
     pub fn is_file(&self) -> bool { unimplemented!() }
 }
@@ -85,12 +87,17 @@ impl DirEntry {
     #[verifier::external_body]
     pub fn path(&self) -> &PathBufR { unimplemented!() }
     #[verifier::external_body]
-    pub fn file_type(&self) -> FileTypeR { unimplemented!() }
+    pub fn file_type(&self) -> (r: FileTypeR) ensures r.dir@ == self.walk_is_dir@, { unimplemented!() }
 }
 pub struct WalkerR { pub _opaque: u64 }
 impl WalkerR {
+    // walkdir::IntoIter::skip_current_dir: skips the rest of the directory the walk is IN.  Right after a directory entry was
+    // yielded that is this directory (nothing of it is visited); after any other entry it is the PARENT -- the siblings that
+    // follow would never be seen.  PRECONDITION: only called for an entry the walk descends into
     #[verifier::external_body]
-    pub fn skip_current_dir(&mut self) { unimplemented!() }
+    pub fn skip_current_dir(&mut self, last_yielded_is_dir: Ghost<bool>)
+        requires last_yielded_is_dir@,
+    { unimplemented!() }
 }
 #[verifier::external_body]
 pub fn vnext_entry(walker: &mut WalkerR) -> Option<DirEntry> { unimplemented!() }
@@ -110,4 +117,11 @@ impl LocalDestinationR {
     pub fn remove_file(&self, p: &PathBufR, Ghost(delete): Ghost<bool>, Ghost(dry_run): Ghost<bool>) -> (r: Result<(), IoErr>)
         requires delete && !dry_run,
     { unimplemented!() }
+}
+impl PathBufR {
+    // std::path::Path::is_dir / is_file: FOLLOW symlinks (stat, not lstat) -- unrelated to the walk's own file type
+    #[verifier::external_body]
+    pub fn is_dir(&self) -> bool { unimplemented!() }
+    #[verifier::external_body]
+    pub fn is_file(&self) -> bool { unimplemented!() }
 }
